@@ -128,9 +128,9 @@ func run(r *core.Run) {
 			break
 		}
 	}
-	litL := 5
+	litL := 6
 	if r.Thorough() {
-		litL = 6
+		litL = 7
 	}
 	for l := 1; l <= litL; l++ {
 		r.Section(fmt.Sprintf("literal spellings <=%d", l))
